@@ -12,7 +12,9 @@ MANIFEST = dict(
               "+ allocation ledger, and Lean 4 proofs over an allocation monad (all failure oracles) for ported functions with non-trivial cleanup",
     text="fault_enumeration / partial: for each of ~40 scenarios (initialise, compile each construct class and each module import, includes, externals, save, "
          "load, scanner creation, scans with every module on sample files, hex strings on the fast-exec path, matches verified at the end of a block, external redefinition) every allocation made through yr_malloc/yr_calloc/yr_realloc/"
-         "yr_strdup/yr_strndup is failed in turn (quick tier: every k for N<=300, stride+random otherwise; thorough: every k) and the outcome judged: error "
+         "yr_strdup/yr_strndup is failed in turn (quick tier: every k for N<=300, otherwise stride+random plus the first/middle/last allocation of every "
+         "(allocator call site, caller) pair recorded by the counting run; thorough: every k; the static call sites listed by translators/oomsites.py "
+         "are compared with the reached ones and the never-reached ones are reported under allocator_call_sites) and the outcome judged: error "
          "reported or correct completion, no crash, no leak (ledger + LeakSanitizer), objects destroyable, follow-up compile+scan works. "
          "Proof only for the ported functions (Thm/C16.lean: notebook, AC BFS queue loop, hash-table add, rules-level string redefinition, rules loading, "
          "scanner staged construction, the block scanner's verification loops and the fast-exec position list — the last two with their "
@@ -603,6 +605,7 @@ def run(tier, replay=None):
                                [{"case": l[:300], "result": (res.get(l.split(" ", 1)[0]) or {}).get("out")} for (sc_, lines), (res, ls) in list(zip(chunks, outs))[:3] for l in lines[:1]]})
     core.handle_broken_proof(chk, lres, found)
     chk.assumptions += ["only allocations made through libyara's allocator (yr_malloc & co.) are failed; flex/bison buffers, OpenSSL, authenticode-parser, tlsh call libc directly",
-                        "quick tier samples k for scenarios with more than 300 allocations (stride + random + first 60 + last 2), thorough enumerates every k",
+                        "quick tier samples k for scenarios with more than 300 allocations (stride + random + first 40 + last 3 + first/middle/last allocation of every (call site, caller) pair), thorough enumerates every k",
+                        "%d of %d static allocator call sites in the built library sources are reached by no scenario (listed in coverage.allocator_call_sites.listed_never_reached)" % (len(never), len(listed)),
                         "known findings are keyed by (kind, allocation call site, calling context), not by scenario or k"]
     return chk.finish("fault_enumeration")
